@@ -277,9 +277,12 @@ impl CharRefTokenizer {
         tokenizer: &XmlTokenizer<Sink>,
         input: &BufferQueue,
     ) -> Status {
-        let Some(c) = tokenizer.get_char(input) else {
+        // peek + raw discard skips newline normalization, so that the name can be
+        // un-consumed exactly as it was read
+        let Some(c) = tokenizer.peek(input) else {
             return Stuck;
         };
+        tokenizer.discard_raw_char(input);
         self.name_buf_mut().push_char(c);
         match data::NAMED_ENTITIES.get(&self.name_buf()[..]) {
             // We have either a full match or a prefix of one.
@@ -409,9 +412,10 @@ impl CharRefTokenizer {
         tokenizer: &XmlTokenizer<Sink>,
         input: &BufferQueue,
     ) -> Status {
-        let Some(c) = tokenizer.get_char(input) else {
+        let Some(c) = tokenizer.peek(input) else {
             return Stuck;
         };
+        tokenizer.discard_raw_char(input);
         self.name_buf_mut().push_char(c);
         match c {
             _ if c.is_ascii_alphanumeric() => return Progress,
